@@ -416,6 +416,8 @@ structure Acc where
   prevInv : Option (InvArgs × Bool) := none     -- previous op was an invocation (args, impl said ok)
   cleanEq : Bool := true
   noopAfterSuccess : Bool := true
+  settledAfterSuccess : Bool := true
+  nSettled : Nat := 0
   logAgrees : Bool := true
   regenFirst : Bool := true
   reloadIffRan : Bool := true
@@ -452,6 +454,11 @@ def stepOp (acc : Acc) (op : World.Op) : Acc :=
             o.result == "ok 0" && !o.trace.any (fun e => match e with | .start _ => true | _ => false)
           else true
         | _ => true
+      -- C03/C02: the state a successful build leaves is "settled" (the hypothesis of
+      -- C03.repeated_build_does_nothing): the implementation's tree with the log's records
+      let wImpl : World := { fs := o.fs.map (fun t => (t.1, (⟨t.2.1, t.2.2⟩ : FileInfo))), clock := w'.clock, log := w'.log }
+      let settledApplies := o.result.startsWith "ok" && !a.adopt && World.allDeclaredPresent wImpl a
+      let settledOk := !settledApplies || World.settled wImpl a
       -- `-t restat` starts no command
       let restat := !a.adopt || !o.trace.any (fun e => match e with | .start _ => true | _ => false)
       -- C09/C08/C02: the log the implementation left is the abstract one
@@ -503,6 +510,8 @@ def stepOp (acc : Acc) (op : World.Op) : Acc :=
                  runSetAsPredicted := acc.runSetAsPredicted && runSet, logs := acc.logs.drop 1,
                  prevInv := some (a, implOk), nInv := acc.nInv + 1, adoptSeen := acc.adoptSeen || a.adopt,
                  cleanEq := acc.cleanEq && cleanOk, noopAfterSuccess := acc.noopAfterSuccess && noop,
+                 settledAfterSuccess := acc.settledAfterSuccess && settledOk,
+                 nSettled := acc.nSettled + (if settledApplies && settledOk then 1 else 0),
                  logAgrees := acc.logAgrees && logOk, regenFirst := acc.regenFirst && regen,
                  reloadIffRan := acc.reloadIffRan && reloadOk,
                  restatRunsNothing := acc.restatRunsNothing && restat }
@@ -517,7 +526,8 @@ def handleHist (case impl : List String) : String :=
     " ; ".intercalate acc.out ++ mons [("cleanEq", acc.cleanEq), ("noopAfterSuccess", acc.noopAfterSuccess),
       ("logAgrees", acc.logAgrees), ("regenFirst", acc.regenFirst), ("reloadIffRan", acc.reloadIffRan),
       ("restatRunsNothing", acc.restatRunsNothing), ("wantedFromNewText", acc.wantedFromNewText),
-      ("runSetAsPredicted", acc.runSetAsPredicted)]
+      ("runSetAsPredicted", acc.runSetAsPredicted), ("settledAfterSuccess", acc.settledAfterSuccess)]
+      ++ s!" @settledStates={acc.nSettled} @invocations={acc.nInv}"
   | _, _ => "bad-case"
 
 /-- `case` tokens and the implementation's observed tokens -> model line ++ monitor verdicts. -/
